@@ -9,35 +9,6 @@ namespace PrologVerif.Refine
 open PrologVerif PrologVerif.VM PrologVerif.DecompileCompile PrologVerif.Activation
   PrologVerif.RefineITree PrologVerif.RefineRobinson
 
-/-! ### pointwise relation of two lists -/
-
-inductive Forall2 {α β : Type} (R : α → β → Prop) : List α → List β → Prop
-  | nil : Forall2 R [] []
-  | cons {a : α} {b : β} {as : List α} {bs : List β} : R a b → Forall2 R as bs → Forall2 R (a :: as) (b :: bs)
-
-theorem Forall2.length_eq {α β : Type} {R : α → β → Prop} {as : List α} {bs : List β} (h : Forall2 R as bs) :
-    as.length = bs.length := by
-  induction h with
-  | nil => rfl
-  | cons _ _ ih => simp [ih]
-
-theorem Forall2.append {α β : Type} {R : α → β → Prop} {as as' : List α} {bs bs' : List β}
-    (h : Forall2 R as bs) (h' : Forall2 R as' bs') : Forall2 R (as ++ as') (bs ++ bs') := by
-  induction h with
-  | nil => exact h'
-  | cons hd _ ih => exact .cons hd ih
-
-theorem Forall2.imp {α β : Type} {R S : α → β → Prop} {as : List α} {bs : List β} (h : Forall2 R as bs)
-    (hRS : ∀ a b, R a b → S a b) : Forall2 S as bs := by
-  induction h with
-  | nil => exact .nil
-  | cons hd _ ih => exact .cons (hRS _ _ hd) ih
-
-theorem forall2_maps {α β γ : Type} {R : β → γ → Prop} (f : α → β) (g : α → γ) :
-    ∀ l : List α, (∀ a ∈ l, R (f a) (g a)) → Forall2 R (l.map f) (l.map g)
-  | [], _ => .nil
-  | a :: l, h => .cons (h a (by simp)) (forall2_maps f g l (fun a' ha' => h a' (by simp [ha'])))
-
 /-! ### shapes -/
 
 theorem hasVar_argList {g a : Term} {v : Nat} (ha : a ∈ argList g) (hv : a.hasVar v = true) :
@@ -75,6 +46,14 @@ theorem shape_of_hornHead {h : Term} (hh : hornHead h = true) : Shape h := by
     simp only [hornHead, Bool.and_eq_true, decide_eq_true_eq] at hh
     exact Or.inr ⟨f, as, rfl, hh.1⟩
   | _ => simp [hornHead] at hh
+
+theorem shape_of_headOK {h : Term} (hh : headOK h = true) : Shape h := by
+  cases h with
+  | atom f => exact Or.inl ⟨f, rfl⟩
+  | app f as =>
+    simp only [headOK, Bool.and_eq_true, decide_eq_true_eq] at hh
+    exact Or.inr ⟨f, as, rfl, hh.1.1⟩
+  | _ => simp [headOK] at hh
 
 theorem shape_rename {t : Term} (ρ : Nat → Nat) (h : Shape t) : Shape (t.rename ρ) := by
   rcases h with ⟨f, rfl⟩ | ⟨f, as, rfl, hl⟩
@@ -151,10 +130,10 @@ theorem conjuncts_vars {b t : Term} {x : Nat} (ht : t ∈ SLD.conjuncts b) (hx :
     cases t' <;> simp_all [SLD.wrapVar, SLD.call1, Term.hasVar, Args.hasVar]
 
 /-- what the simulation needs to know about a compiled clause, uniformly for rules and facts -/
-theorem CRel.info {cl : Clause} {h b : Term} (hr : CRel cl h b) :
+theorem CRel.info {fl : Bool} {cl : Clause} {h b : Term} (hr : CRel fl cl h b) :
     ∃ hargs pre bops gs, HeadLayout h cl hargs ∧
       cl.code = headCode hargs {} ++ (pre ++ (bops ++ [Op.exit])) ∧ (pre = [] ∨ pre = [Op.enter]) ∧
-      BodySem cl.vars bops gs ∧ (∀ g ∈ gs, g = .atom "!" ∨ hornGoal (goalTerm g) = true) ∧
+      BodySem cl.vars bops gs ∧ (∀ g ∈ gs, g = .atom "!" ∨ stepGoal fl (goalTerm g) = true) ∧
       (SLD.conjuncts b = gs.map goalTerm ∨ (gs = [] ∧ b = .atom "true")) := by
   cases hr with
   | rule hl hcode hsem hgs hg =>
@@ -171,23 +150,96 @@ abbrev Lv := List (Nat × Option Nat)
 /-- the level of a frame id -/
 def Lv.lev (lv : Lv) (c : Nat) : Option Nat := (lv.lookup c).getD none
 
-/-- the pending goals `G` of the VM and the resolvent `R` of the reference; the level of a cut goal
-    is the level of its cut parent -/
-def GRel (lv : Lv) (σ : Subst) (π : Nat → Nat) (D : Nat → Prop) (G : List (Term × Nat)) (R : List SLD.Frame) : Prop :=
-  Forall2 (fun g fr => InD D g.1 ∧ ∃ l, fr = SLD.Frame.goal (img σ π g.1) l ∧
-    (g.1 = .atom "!" → lv.lev g.2 = some l)) G R
+/-- a frame of the reference the VM has no goal for: `call(true)` (what the reference makes of the
+    `true` in `once(G)` ≡ `(call(G) -> true)` and `\\+ G` ≡ `(call(G) -> fail ; true)`) -/
+abbrev skipF (l : Nat) : SLD.Frame := .goal (SLD.call1 (.atom "true")) l
 
-theorem GRel.step {lv : Lv} {σ σ' : Subst} {π π' : Nat → Nat} {D D' : Nat → Prop} {G : List (Term × Nat)}
-    {R : List SLD.Frame}
-    (h : GRel lv σ π D G R) (hD : ∀ v, D v → D' v) (θ : List (Nat × Term))
-    (heq : ∀ t, InD D t → img σ' π' t = (img σ π t).subst (substOf θ)) :
-    GRel lv σ' π' D' G (R.map (SLD.Frame.subst θ)) := by
+/-- a pending goal of the VM against a frame of the reference: the frame is the image of the goal,
+    possibly inside one more `call/1` (the reference's `once/1` and `\\+` call `call(G)`); the level
+    of a cut goal is the level of its cut parent -/
+def HRel (lv : Lv) (σ : Subst) (π : Nat → Nat) (D : Nat → Prop) (g : Term × Nat) (fr : SLD.Frame) : Prop :=
+  InD D g.1 ∧ ∃ l, (fr = SLD.Frame.goal (img σ π g.1) l ∨
+      ((∃ x, g.1 = .app "call" (.cons x .nil)) ∧ fr = SLD.Frame.goal (SLD.call1 (img σ π g.1)) l)) ∧
+    (g.1 = .atom "!" → lv.lev g.2 = some l)
+
+/-- the bottom of the resolvent: empty for the search of the query (`mo = none`); for the search
+    nested in `\\+ G` — the reference runs `(call(G) -> fail ; true)`, whose cut has level `dN` —
+    the rest of the then-branch (`mo = some dN`) -/
+def TailOK (mo : Option Nat) (R : List SLD.Frame) : Prop :=
+  match mo with
+  | none => R = []
+  | some dN => ∃ l Rout, R = .goal (.atom "!") dN :: .goal (SLD.call1 (.atom "fail")) l :: Rout
+
+/-- the pending goals `G` of the VM and the resolvent `R` of the reference -/
+inductive GRel (mo : Option Nat) (lv : Lv) (σ : Subst) (π : Nat → Nat) (D : Nat → Prop) :
+    List (Term × Nat) → List SLD.Frame → Prop
+  | nil {R : List SLD.Frame} : TailOK mo R → GRel mo lv σ π D [] R
+  | skip {G : List (Term × Nat)} {R : List SLD.Frame} (l : Nat) : GRel mo lv σ π D G R → GRel mo lv σ π D G (skipF l :: R)
+  | cons {g : Term × Nat} {G : List (Term × Nat)} {fr : SLD.Frame} {R : List SLD.Frame} :
+      HRel lv σ π D g fr → GRel mo lv σ π D G R → GRel mo lv σ π D (g :: G) (fr :: R)
+
+theorem GRel.map {mo : Option Nat} {lv lv' : Lv} {σ σ' : Subst} {π π' : Nat → Nat} {D D' : Nat → Prop} {G : List (Term × Nat)}
+    {R : List SLD.Frame} (f : SLD.Frame → SLD.Frame) (hs : ∀ l, f (skipF l) = skipF l)
+    (ht : ∀ R, TailOK mo R → TailOK mo (R.map f))
+    (h : GRel mo lv σ π D G R) (hH : ∀ g ∈ G, ∀ fr, HRel lv σ π D g fr → HRel lv' σ' π' D' g (f fr)) :
+    GRel mo lv' σ' π' D' G (R.map f) := by
   induction h with
-  | nil => exact .nil
+  | nil hR => exact .nil (ht _ hR)
+  | skip l _ ih => rw [List.map_cons, hs]; exact .skip l (ih hH)
   | cons hd _ ih =>
-    obtain ⟨hg, l, rfl, hl⟩ := hd
-    refine .cons ⟨fun v hv => hD v (hg v hv), l, ?_, hl⟩ ih
+    exact .cons (hH _ (by simp) _ hd) (ih (fun g hg => hH g (by simp [hg])))
+
+theorem GRel.imp {mo : Option Nat} {lv lv' : Lv} {σ σ' : Subst} {π π' : Nat → Nat} {D D' : Nat → Prop} {G : List (Term × Nat)}
+    {R : List SLD.Frame} (h : GRel mo lv σ π D G R)
+    (hH : ∀ g ∈ G, ∀ fr, HRel lv σ π D g fr → HRel lv' σ' π' D' g fr) : GRel mo lv' σ' π' D' G R := by
+  have := h.map (lv' := lv') (σ' := σ') (π' := π') (D' := D') id (fun _ => rfl) (fun R hR => by simpa using hR) hH
+  simpa using this
+
+theorem GRel.append {mo : Option Nat} {lv : Lv} {σ : Subst} {π : Nat → Nat} {D : Nat → Prop} {G1 G2 : List (Term × Nat)}
+    {R1 R2 : List SLD.Frame} (h1 : GRel none lv σ π D G1 R1) (h2 : GRel mo lv σ π D G2 R2) :
+    GRel mo lv σ π D (G1 ++ G2) (R1 ++ R2) := by
+  induction h1 with
+  | nil hR =>
+    have : _ = [] := hR
+    subst this
+    exact h2
+  | skip l _ ih => exact .skip l ih
+  | cons hd _ ih => exact .cons hd ih
+
+theorem GRel.of_forall2 {lv : Lv} {σ : Subst} {π : Nat → Nat} {D : Nat → Prop} {G : List (Term × Nat)}
+    {R : List SLD.Frame} (h : Forall2 (HRel lv σ π D) G R) : GRel none lv σ π D G R := by
+  induction h with
+  | nil => exact .nil rfl
+  | cons hd _ ih => exact .cons hd ih
+
+theorem tailOK_subst {mo : Option Nat} (θ : List (Nat × Term)) (R : List SLD.Frame) (h : TailOK mo R) :
+    TailOK mo (R.map (SLD.Frame.subst θ)) := by
+  cases mo with
+  | none =>
+    have : R = [] := h
+    subst this; exact rfl
+  | some dN =>
+    obtain ⟨l, Rout, rfl⟩ := h
+    exact ⟨l, Rout.map (SLD.Frame.subst θ), by
+      simp [SLD.Frame.subst, applySubst_eq, SLD.call1, Term.subst, Args.subst]⟩
+
+theorem skipF_subst (θ : List (Nat × Term)) (l : Nat) : SLD.Frame.subst θ (skipF l) = skipF l := by
+  simp [skipF, SLD.Frame.subst, applySubst_eq, SLD.call1, Term.subst, Args.subst]
+
+theorem GRel.step {mo : Option Nat} {lv : Lv} {σ σ' : Subst} {π π' : Nat → Nat} {D D' : Nat → Prop} {G : List (Term × Nat)}
+    {R : List SLD.Frame}
+    (h : GRel mo lv σ π D G R) (hD : ∀ v, D v → D' v) (θ : List (Nat × Term))
+    (heq : ∀ t, InD D t → img σ' π' t = (img σ π t).subst (substOf θ)) :
+    GRel mo lv σ' π' D' G (R.map (SLD.Frame.subst θ)) := by
+  refine h.map _ (skipF_subst θ) (tailOK_subst θ) ?_
+  rintro g _ fr ⟨hg, l, hfr, hl⟩
+  refine ⟨fun v hv => hD v (hg v hv), l, ?_, hl⟩
+  rcases hfr with rfl | ⟨hne, rfl⟩
+  · left
     simp only [SLD.Frame.subst, applySubst_eq, heq _ hg]
+  · right
+    refine ⟨hne, ?_⟩
+    simp only [SLD.Frame.subst, applySubst_eq, heq _ hg, SLD.call1, Term.subst, Args.subst]
 
 /-! ### the activation -/
 
@@ -216,7 +268,7 @@ theorem mguLike_of_solve {a2 b2 : Term} {n : Nat} {θ2 : List (Nat × Term)}
 
 /-- **one clause activation**, the clause's variables being sent to the reference's variables by an
     arbitrary renaming-apart κ (for a program clause: `shift nv`) -/
-theorem thunk_head' {tmpl : Term} {max : Nat} {cl : Clause} {h b : Term} (hcr : CRel cl h b)
+theorem thunk_head' {fl : Bool} {tmpl : Term} {max : Nat} {cl : Clause} {h b : Term} (hcr : CRel fl cl h b)
     {N : Nat} {env : Env} {σ : Subst} {π : Nat → Nat} {D : Nat → Prop} {nv : Nat}
     (hsim : SimW tmpl N env σ π D nv)
     (F : Nat) (g : Term) (K : Cont) (id : Nat) (m : MS) (res : Pr × MS)
@@ -237,14 +289,15 @@ theorem thunk_head' {tmpl : Term} {max : Nat} {cl : Clause} {h b : Term} (hcr : 
           ∃ σ' π' D' G1, SimW tmpl N' env' σ' π' D' nv' ∧
             (∀ v, D v → D' v) ∧
             (∀ t, InD D t → img σ' π' t = (img σ π t).subst τ2) ∧
-            (∀ G, ContGoals tmpl max K G → ContGoals tmpl max K1 (G1 ++ G)) ∧
-            Forall2 (fun g1 bg => InD D' g1.1 ∧ g1.2 = id ∧ img σ' π' g1.1 = (bg.rename κ).subst τ2) G1 Bs ∧
+            (∀ G, ContGoals fl mo tmpl max K G → ContGoals fl mo tmpl max K1 (G1 ++ G)) ∧
+            Forall2 (fun g1 bg => InD D' g1.1 ∧ g1.2 = id ∧ img σ' π' g1.1 = (bg.rename κ).subst τ2 ∧
+              ∃ ρ', g1.1 = bg.rename ρ') G1 Bs ∧
             (∀ v, D' v → D v ∨ ∃ x, (h.hasVar x = true ∨ b.hasVar x = true) ∧
               img σ' π' (.var v) = ((Term.var x).rename κ).subst τ2)) := by
   obtain ⟨hargs, pre, bops, gs, hl, hcode, hpre, hsem, hgoals, hbody⟩ := hcr.info
   -- the clause variables
   let V : Nat → Prop := fun x => h.hasVar x = true ∨ ∃ g0 ∈ gs, (goalTerm g0).hasVar x = true
-  have hhs : Shape h := shape_of_hornHead hl.horn
+  have hhs : Shape h := shape_of_headOK hl.horn
   have hhnv : ∀ w, h ≠ .var w := by
     rcases hhs with ⟨f, rfl⟩ | ⟨f, as, rfl, _⟩ <;> simp
   have hV : ∀ x, V x → x ∈ cl.vars ∧ (h.hasVar x = true ∨ b.hasVar x = true) := by
@@ -340,12 +393,12 @@ theorem thunk_head' {tmpl : Term} {max : Nat} {cl : Clause} {h b : Term} (hcr : 
         intro g0 hg0
         have hgV : ∀ x, (goalTerm g0).hasVar x = true → V x := fun x hx => Or.inr ⟨g0, hg0, hx⟩
         obtain ⟨h1, h2⟩ := himg_new (goalTerm g0) hgV
-        exact ⟨h2, rfl, by rw [heq' _ h2, h1]⟩
+        exact ⟨h2, rfl, by rw [heq' _ h2, h1], ρ, rfl⟩
 
 theorem maxVar_rule (h b : Term) : SLD.maxVar (SLD.rule h b) = Nat.max (SLD.maxVar h) (SLD.maxVar b) := by
   simp [SLD.rule, SLD.mk2, SLD.maxVar, SLD.maxVarArgs]
 
-theorem thunk_head {tmpl : Term} {max : Nat} {cl : Clause} {h b : Term} (hcr : CRel cl h b)
+theorem thunk_head {fl : Bool} {tmpl : Term} {max : Nat} {cl : Clause} {h b : Term} (hcr : CRel fl cl h b)
     {N : Nat} {env : Env} {σ : Subst} {π : Nat → Nat} {D : Nat → Prop} {nv : Nat}
     (hsim : SimW tmpl N env σ π D nv)
     (F : Nat) (g : Term) (K : Cont) (id : Nat) (m : MS) (res : Pr × MS)
@@ -361,9 +414,9 @@ theorem thunk_head {tmpl : Term} {max : Nat} {cl : Clause} {h b : Term} (hcr : C
           ∃ σ' π' D' G1, SimW tmpl N' env' σ' π' D' (nv + SLD.maxVar (SLD.rule h b)) ∧
             (∀ v, D v → D' v) ∧
             (∀ t, InD D t → img σ' π' t = (img σ π t).subst (substOf θ2)) ∧
-            (∀ G, ContGoals tmpl max K G → ContGoals tmpl max K1 (G1 ++ G)) ∧
+            (∀ G, ContGoals fl mo tmpl max K G → ContGoals fl mo tmpl max K1 (G1 ++ G)) ∧
             Forall2 (fun g1 bg => InD D' g1.1 ∧ g1.2 = id ∧
-              img σ' π' g1.1 = (SLD.shift nv bg).subst (substOf θ2)) G1 Bs) := by
+              img σ' π' g1.1 = (SLD.shift nv bg).subst (substOf θ2) ∧ ∃ ρ', g1.1 = bg.rename ρ') G1 Bs) := by
   have hlt : ∀ x, (h.hasVar x = true ∨ b.hasVar x = true) → x < SLD.maxVar (SLD.rule h b) := by
     intro x hx
     rw [maxVar_rule]
